@@ -12,6 +12,7 @@ import os
 import shutil
 import sys
 import tempfile
+import time
 
 from hypothesis import strategies as st
 
@@ -101,9 +102,9 @@ def _call(searcher, name, mtime, rebuild):
 
 
 def real_sweep(ctx):
-    SRC = 1000000
+    SRC = 1000000000   # even, after 1980: representable in a ZIP directory as well
     name = 'TEST-MIB'
-    kinds = ['any.json', 'any.multi', 'py', 'pypkg']
+    kinds = ['any.json', 'any.multi', 'py', 'pypkg', 'pypkg.zip']
     present = [None, SRC - 1, SRC, SRC + 1]
     decoys = [(), ('dir',), ('otherext',), ('lower',), ('suffix',), ('dir', 'otherext', 'lower', 'suffix'), ('emptyext',)]
     # for the multi-extension searcher also a copy under the *second* listed extension: absent / stale / fresh
@@ -150,7 +151,7 @@ def real_sweep(ctx):
                     mk(name + exts[1], second)
                 for dk in decoy:
                     if dk == 'dir':
-                        if (name + exts[-1]) not in files:
+                        if (name + exts[-1]) not in files and kind != 'pypkg.zip':
                             mk(name + exts[-1], SRC + 5, isdir=True)
                     elif dk == 'otherext':
                         mk(name + '.txt', SRC + 5)
@@ -162,7 +163,22 @@ def real_sweep(ctx):
                         mk('X' + name + exts[0], SRC + 5)
                     elif dk == 'emptyext' and kind != 'any.multi':
                         mk(name, SRC + 5)
-                if kind.startswith('any'):
+                if kind == 'pypkg.zip':
+                    # the package lives in a ZIP archive on sys.path (an "egg"); ZIP times have 2 s resolution
+                    import zipfile
+                    zpath = os.path.join(base, pkgname + '.zip')
+                    with zipfile.ZipFile(zpath, 'w') as z:
+                        z.writestr(zipfile.ZipInfo(pkgname + '/__init__.py', date_time=(2001, 1, 1, 0, 0, 0)), '')
+                        for fname, (what, mtime) in sorted(files.items()):
+                            if what == 'file':
+                                files[fname] = ('file', mtime - mtime % 2)
+                                z.writestr(zipfile.ZipInfo(pkgname + '/' + fname, date_time=time.gmtime(mtime)[:6]), 'x = 1\n')
+                            else:
+                                z.writestr(zipfile.ZipInfo(pkgname + '/' + fname + '/', date_time=(2001, 1, 1, 0, 0, 0)), '')
+                    shutil.rmtree(d, ignore_errors=True)
+                    sys.path.insert(0, zpath)
+                    s = PyPackageSearcher(pkgname)
+                elif kind.startswith('any'):
                     s = AnyFileSearcher(d).setOptions(exts=exts)
                 elif kind == 'py':
                     s = PyFileSearcher(d)
@@ -178,6 +194,10 @@ def real_sweep(ctx):
                     if kind == 'pypkg':
                         sys.path.remove(base)
                         sys.modules.pop(pkgname, None)
+                    elif kind == 'pypkg.zip':
+                        sys.path.remove(zpath)
+                        sys.modules.pop(pkgname, None)
+                        sys.path_importer_cache.pop(zpath, None)
                 want = _expect(files, name, exts, SRC, rebuild)
                 rec.evaluated()
                 rec.count('kind.' + kind)
@@ -197,6 +217,68 @@ def real_sweep(ctx):
         return None
     ctx.parallel('real-searchers', fn)
     ctx.extra_cov['exhaustive_subdomain'] = 'B: %d combinations (searcher kind x mtime x decoys x rebuild)' % len(combos)
+
+
+# ---------------------------------------------------------------------------
+# C: source time as a real reader reports it -> real searcher (sub-second file times)
+
+
+@st.composite
+def reader_searcher_cases(draw):
+    sec = 1000000000 + draw(st.integers(0, 1000))
+    src_ns = draw(st.sampled_from((0, 1, 500000000, 999999999, 250000000, 700000000)))
+    # destination relative to the source: same second before / after, neighbouring seconds, far away
+    delta_ns = draw(st.one_of(st.sampled_from((0, 1, -1, 100000000, -100000000, 999999999, -999999999, 1000000000, -1000000000)),
+                              st.integers(-2500000000, 2500000000)))
+    return {'src_s': sec, 'src_ns': src_ns, 'delta_ns': delta_ns, 'searcher': draw(st.sampled_from(('any.json', 'py'))),
+            'reader': draw(st.sampled_from(('file', 'file.recursive')))}
+
+
+def reader_searcher_prop(case, rec):
+    from pysmi.reader.localfile import FileReader
+    from pysmi.searcher.anyfile import AnyFileSearcher
+    from pysmi.searcher.pyfile import PyFileSearcher
+    base = tempfile.mkdtemp(prefix='c10c')
+    try:
+        srcdir = os.path.join(base, 'src', 'sub') if case['reader'] == 'file.recursive' else os.path.join(base, 'src')
+        dst = os.path.join(base, 'dst')
+        os.makedirs(srcdir)
+        os.makedirs(dst)
+        sp = os.path.join(srcdir, 'TEST-MIB.txt')
+        with open(sp, 'w') as fh:
+            fh.write('TEST-MIB DEFINITIONS ::= BEGIN END\n')
+        src_total = case['src_s'] * 1000000000 + case['src_ns']
+        os.utime(sp, ns=(src_total, src_total))
+        dst_total = src_total + case['delta_ns']
+        ext = '.json' if case['searcher'] == 'any.json' else '.py'
+        dp = os.path.join(dst, 'TEST-MIB' + ext)
+        with open(dp, 'w') as fh:
+            fh.write('x = 1\n')
+        os.utime(dp, ns=(dst_total, dst_total))
+        # what the filesystem really stored
+        src_total = os.stat(sp).st_mtime_ns
+        dst_total = os.stat(dp).st_mtime_ns
+        reader = FileReader(os.path.join(base, 'src'), recursive=True)
+        info, text = reader.getData('TEST-MIB')
+        s = AnyFileSearcher(dst).setOptions(exts=['.json']) if case['searcher'] == 'any.json' else PyFileSearcher(dst)
+        got = _call(s, 'TEST-MIB', info.mtime, False)
+        rec.evaluated()
+        if dst_total >= src_total:
+            want = ('notmodified',)        # the copy is not older than the source
+        elif dst_total // 1000000000 < src_total // 1000000000:
+            want = ('notfound',)           # older by whole seconds
+        else:
+            want = ('notmodified', 'notfound')   # older within the same second: below the documented (1 s) resolution
+        rec.count('reader-searcher.%s' % ('same-second' if dst_total // 1000000000 == src_total // 1000000000 else 'other-second'))
+        rec.count('reader-searcher.answer.' + got)
+        if got not in want:
+            raise Violation('searcher-answer', 'source mtime %d.%09d (reader reports %r), copy mtime %d.%09d: answered %s, expected %s' % (
+                src_total // 1000000000, src_total % 1000000000, info.mtime, dst_total // 1000000000, dst_total % 1000000000,
+                got, ' or '.join(want)), case)
+        if src_total % 1000000000 and abs(dst_total - src_total) < 1500000000:
+            rec.mark_nontrivial(digest(['rs', case]))
+    finally:
+        shutil.rmtree(base, ignore_errors=True)
 
 
 def probes(ctx):
@@ -224,13 +306,16 @@ def run(ctx):
     ctx.search('searchers', cases, prop, ctx.pick(16000, 300000))
     ctx.search('searchers+failures', cases_with_failures, prop, ctx.pick(8000, 150000))
     real_sweep(ctx)
+    ctx.search('reader-searcher', reader_searcher_cases, reader_searcher_prop, ctx.pick(1600, 30000))
     probes(ctx)
 
 
 def replay(ctx, data):
     from vlib.core import Recorder
     case = data['case']
-    if 'universe' in case:
+    if 'delta_ns' in case:
+        reader_searcher_prop(case, Recorder(ctx.findings))
+    elif 'universe' in case:
         prop(case, Recorder(ctx.findings))
     else:
         raise Violation(data['facet'], 'real-searcher case: re-run the check (the lattice is enumerated completely)', case)
